@@ -52,6 +52,7 @@ def shards(tier: str, seed: int):
         out.append(["seedgrid"])
     out.append(["real"])
     out.append(["tz"])
+    out.append(["ambient"])
     out.append(["ticking"])
     out.append(["walk", 0])
     out.append(["walk", 1])
@@ -169,7 +170,47 @@ def _seed_cache(seed: int, l0: int, pos=(31, 31)):
     return refdc.primed_cache(rk, SID, (l0, pos[0], pos[1]))
 
 
+AMBIENT = [("decimal", 28, "ROUND_HALF_EVEN"), ("decimal", 16, "ROUND_HALF_EVEN"), ("decimal", 10, "ROUND_UP"), ("decimal", 6, "ROUND_HALF_EVEN"), ("decimal", 1, "ROUND_CEILING"), ("intstr", 640, None)]
+
+
+def ambient_cm(kind: str, val, extra):
+    """numeric settings of the calling thread / interpreter that an application may have changed before it calls the library"""
+    import contextlib
+    import decimal
+    import sys
+
+    if kind == "decimal":
+        return decimal.localcontext(decimal.Context(prec=val, rounding=getattr(decimal, extra)))
+
+    @contextlib.contextmanager
+    def intstr():
+        old = sys.get_int_max_str_digits()
+        sys.set_int_max_str_digits(val)
+        try:
+            yield
+        finally:
+            sys.set_int_max_str_digits(old)
+
+    return intstr()
+
+
 def run_shard(shard, tier, seed, acc) -> None:
+    if shard[0] == "ambient":
+        worker_init()
+        n = 0
+        for kind, val, extra in AMBIENT:
+            with ambient_cm(kind, val, extra):
+                for tt in tz_times():
+                    for api in ("sync", "async"):
+                        v, oc = case(seed, tt, 0, api)
+                        n += 1
+                        if v:
+                            acc.violate("ambient." + v[0], ["ambient", kind, val, extra, tt, api], v[1], size=abs(tt) % 1000)
+            acc.outcome(f"ambient:{kind}:{val}")
+        acc.ev(n)
+        acc.nt_counted(n)
+        acc.sample({"ambient numeric settings": [list(a_) for a_ in AMBIENT], "instants": len(tz_times())})
+        return
     if shard[0] == "tz":
         # the process time zone is part of the environment: the same boundary sweep in child interpreters started under other zones
         n = 0
@@ -333,6 +374,14 @@ def run_shard(shard, tier, seed, acc) -> None:
 
 
 def replay(case_, seed, acc) -> None:
+    if case_[0] == "ambient":
+        worker_init()
+        acc.ev()
+        with ambient_cm(case_[1], case_[2], case_[3]):
+            v, _ = case(seed, case_[4], 0, case_[5])
+        if v:
+            acc.violate("ambient." + v[0], case_, v[1])
+        return
     if case_[0] == "tz":
         acc.ev()
         for tt, api, key, det in run_tz(seed, case_[1]):
